@@ -56,8 +56,32 @@ func (s *sim) recordGST() {
 		}
 	}
 	f := int32(len(s.byz))
-	// see DESIGN.md C03: a deliberately loose bound, not a tight one
-	gi.deadline = gi.rmax + 2*(gi.rmax-gi.rmin) + 2*(f+1) + 2
+	// see DESIGN.md C03/13.4: a deliberately loose bound, not a tight one. A correct validator
+	// that is locked on a block the others do not hold keeps prevoting it, and when every
+	// correct vote is needed for a polka the height is only decided once THAT validator
+	// proposes (it re-proposes its valid block with its POL round). With weighted rotation a
+	// low-power validator's turn can be total/power rounds away, so the bound is: the first
+	// round after rmax by which every correct validator has been proposer once, plus the slack
+	// for round spread and pre-GST pollution.
+	allTurn := gi.rmax + 2*(f+1)
+	for _, n := range s.nodes {
+		if rs := n.cs.GetRoundState(); rs.Height == gi.height {
+			base := n.cs.GetState().Validators
+			need := map[string]bool{}
+			for _, m := range s.nodes {
+				need[string(m.addr)] = true
+			}
+			for r := gi.rmax + 1; r < gi.rmax+400 && len(need) > 0; r++ {
+				p := base.CopyIncrementProposerPriority(r).GetProposer()
+				delete(need, string(p.Address))
+				if r > allTurn {
+					allTurn = r
+				}
+			}
+			break
+		}
+	}
+	gi.deadline = allTurn + 2*(gi.rmax-gi.rmin) + 2
 	s.gstInfo = gi
 	s.env.Logf("gst height=%d rmax=%d rmin=%d bound=%d", gi.height, gi.rmax, gi.rmin, gi.deadline)
 }
@@ -88,6 +112,9 @@ func (s *sim) nextSync(rng *simcore.RNG) simcore.Op {
 	}
 	if done {
 		return nil
+	}
+	if len(s.inflight) > 0 {
+		return simcore.Op{"a": "arrive", "id": s.inflight[0].id}
 	}
 	if bop := s.nextByz(rng, rng.Intn(1000)); bop != nil {
 		return bop
